@@ -161,8 +161,14 @@ prop("C07", [
 ], explanation="narrow clause of C07: source-address control message carries the receiving address (all 2^32/2^128 addresses)")
 
 prop("C08", [
+    dict(engine="verus", unit="acl"),
     dict(engine="kani", sets=["config_prefix"]),
-], explanation="prefix containment predicates against the written-prefix spec, all addresses and all prefix lengths")
+], explanation="require_permission grants <=> the first matching rule exists and grants the permission (Acl::check, check_authenticated via R17d/R17e, require_permission); "
+               "entry points: the welcome page, /metrics, the lease listing and the DNS handler chain behind DnsAclHandler are reachable only with the matching permission token (emission-point preconditions), refusal => 403 / RefusedByAcl; "
+               "prefix containment against the written-prefix spec, all addresses and prefix lengths (Kani complete)",
+    assumptions=["Prefix::contains dispatch over address families and NetAddr::ip()/as_unix_addr() are opaque in the Verus unit (the Prefix4/Prefix6 impls are the Kani set config_prefix)",
+                 "conf.read().await (lock acquisition) treated as a plain read: a configuration reload between the check and the use is not modelled",
+                 "hyper routing: which arm of `match (req.method(), req.uri().path())` runs is outside the slices; the catch-all arm (404 behind HttpLeases) is not sliced"])
 
 prop("C11", [
     dict(engine="verus", unit="policy", fns=["check_policy", "check_policies", "apply_policy", "apply_policies",
